@@ -6,7 +6,7 @@ import math
 import numpy as np
 
 TAGS = ["None", "nan", "pybool", "pyint", "pyfloat", "str", "str_empty", "date", "datetime", "timedelta", "bytes", "obj",
-        "np_bool", "np_int", "np_float", "np_dt64", "np_nat", "np_str"]
+        "np_bool", "np_int", "np_float", "np_dt64", "np_nat", "np_str", "np_td64"]
 
 
 class Obj:
@@ -30,8 +30,8 @@ PAYLOAD = {
     "datetime": [datetime.datetime(2020, 1, 2, 3, 4, 5), datetime.datetime(1969, 12, 31, 23, 59, 59, 999999)],
     "timedelta": [datetime.timedelta(days=1), datetime.timedelta(seconds=-5)], "bytes": [b"a", b"bc"],
     "obj": [Obj(1), Obj(2)], "np_bool": [np.True_, np.False_], "np_int": [np.int64(3), np.int64(-4)],
-    "np_float": [np.float64(1.5), np.float64(2.5)], "np_dt64": [np.datetime64("2020-01-02"), np.datetime64("2021-03-04")],
-    "np_nat": [np.datetime64("NaT"), np.datetime64("NaT")], "np_str": [np.str_("x"), np.str_("yy")],
+    "np_float": [np.float64(1.5), np.float64(2.5)], "np_dt64": [np.datetime64("2020-01-02"), np.datetime64("2021-03-04T05:06:07")],
+    "np_nat": [np.datetime64("NaT"), np.datetime64("NaT")], "np_str": [np.str_("x"), np.str_("yy")], "np_td64": [np.timedelta64(1, "D"), np.timedelta64(90, "s")],
 }
 DTYPES = {"": None, "bool": bool, "int": int, "float": float, "str": str, "object": object,
           "date": "datetime64[D]", "datetime": "datetime64[us]"}
@@ -107,7 +107,10 @@ def execute(tags, dt, variant, as_array=False):
         if len(tags) > 0:
             w = v.astype(v.na_dtype).copy()
             w[0] = v.na_value
-            rec["na_holds"] = bool(np.asarray(w.view(di.Vector).is_na())[0])
+            w = w.view(di.Vector)
+            # ... as missing, the cast keeping every other element what it was
+            rec["na_holds"] = bool(np.asarray(w.is_na())[0]) and all(
+                (a is None and b is None) or eqv(a, b) for a, b in zip(w.tolist()[1:], tl[1:]))
         d = v.drop_na()
         rec["dropna_len"] = int(d.shape[0])
         rec["dropna_clean"] = not bool(np.asarray(d.is_na()).any()) and [eqv(a, b) for a, b in zip(d.tolist(), [x for x, m in zip(tl, na) if not m])].count(False) == 0
@@ -146,10 +149,11 @@ def run(ctx):
         tags = list(tags)
         dts = [""] + ([rng.choice(list(DTYPES)[1:])] if quick else list(DTYPES)[1:])
         for dt in dts:
-            rec, v = execute(tags, dt, rng.randint(0, 1))
+          for variant in (0, 1):          # both payload orders: the first element must not decide width / unit / type
+            rec, v = execute(tags, dt, variant)
             records.append(rec)
             ctx.count((tuple(tags), dt), len(tags) >= 2 and len(set(tags)) >= 2)
-            if v is not None and rec["err"] == "" and "np_nat" not in tags and len(pool) < (150 if quick else 600) and rng.random() < 0.1:
+            if v is not None and rec["err"] == "" and "np_nat" not in tags and "np_td64" not in tags and len(pool) < (150 if quick else 600) and rng.random() < 0.1:
                 pool.append((tuple(tags), dt, v))
     # equal as an equivalence relation over a pool of real vectors (each vector once more rebuilt from the same input)
     import dataiter as di
